@@ -66,6 +66,24 @@ fn tail(p: &Path, n: usize) -> String {
 
 /// Launch the real server with `config` (a TOML/YAML file) and optional extra environment.
 pub fn launch(config: &Path, port: u16, http_port: u16, envs: &[(String, String)], work: &Path) -> Launch {
+    // A port probed as free can be taken by ANOTHER process (a parallel check, somebody's test
+    // server) before the child binds it; the child then exits with "Address already in use",
+    // which says nothing about the directory it was started on. Retry on fresh ports.
+    let (mut port, mut http_port) = (port, http_port);
+    for attempt in 0..6 {
+        match launch_once(config, port, http_port, envs, work) {
+            Launch::Refused { code, log_tail } if log_tail.contains("Address already in use") && attempt < 5 => {
+                let _ = code;
+                port = free_port();
+                http_port = free_port();
+            }
+            other => return other,
+        }
+    }
+    unreachable!()
+}
+
+fn launch_once(config: &Path, port: u16, http_port: u16, envs: &[(String, String)], work: &Path) -> Launch {
     let exe = vcore::par::self_exe();
     let log = work.join(format!("server-{port}.log"));
     let logf = std::fs::File::create(&log).expect("log");
